@@ -16,12 +16,19 @@ TOL = 1e-10
 def plan(tier, seed):
     nb = 2 if tier == "quick" else 12
     n = 80 if tier == "quick" else 400
-    return [{"name": "ll-%d" % b, "kind": "ll", "b": b, "n": n, "timeout": 900} for b in range(nb)]
+    specs = [{"name": "ll-%d" % b, "kind": "ll", "b": b, "n": n, "timeout": 900} for b in range(nb)]
+    # the repository's own tests as workload, with the ambient monitors of vf.ambient installed
+    if tier != "quick":
+        specs.append({"name": "ambient-tests", "kind": "ambient-tests", "files": ['test_Optimization.py'], "timeout": 2400, "cpus": 4})
+    return specs
 
 
 def required(tier):
-    return {"ll": 100, "ll_per_bin": 100, "ll_multinom": 100, "optimal_sfs_scaling": 100, "scale-invariant": 100,
+    r = {"ll": 100, "ll_per_bin": 100, "ll_multinom": 100, "optimal_sfs_scaling": 100, "scale-invariant": 100,
             "multinom-is-max": 100, "mask-removes-term": 100, "autofold": 20, "data-maximises": 30, "linear-residual": 100, "anscombe-residual": 100}
+    if tier != "quick":
+        r.update({'ambient-ll_multinom': 20})
+    return r
 
 
 def poisson_terms(m, d):
@@ -30,6 +37,9 @@ def poisson_terms(m, d):
 
 
 def run(spec, rec):
+    if spec.get("kind") == "ambient-tests":
+        from vf import ambient
+        return ambient.run_tests_batch(spec, rec, 'C11')
     import dadi
     from dadi import Spectrum, Inference
     seed = spec["seed"]
